@@ -226,6 +226,8 @@ def run(ctx):
     # D9: the emulator stages int parameters sign-extended, as the generated C (which declares them int) sees them (shared with C03)
     importlib.import_module("rules.c03").d9_param_staging(db, rep, "D9-PARAM-STAGING")
 
+    d10_redefinition_gets_fresh_temp(db, rep)
+
     if ctx.tier == "thorough":
         d5(ctx, rep)
 
@@ -288,3 +290,85 @@ def d5(ctx, rep):
                   "%s differs from the generator's output, first at line %s: generated `%s`, checked in `%s`" %
                   ((rel,) + (diff[0] if diff else (0, "", ""))), line=diff[0][0] if diff else None)
 
+
+
+def d10_redefinition_gets_fresh_temp(db, rep, rule="D10-REDEFINITION-FRESH"):
+    """D10: the C back end (and every other one) emits the invariant loads - loadpX of parameters and constants - ONCE, before
+    the element loop.  That is sound only because orc_compiler_rewrite_vars gives every further definition of a temporary a
+    fresh duplicate (single assignment per compiler variable): nothing inside the loop ever writes a variable that was loaded
+    outside it.  In the branch taken when the destination has been defined before, every path on which the variable is a
+    temporary must go through orc_compiler_dup_temporary; a path that reuses a duplicate in place lets `t = t op x` update a
+    hoisted value, which then carries from element i to element i + 1 in the generated C and backup code while emulation,
+    which runs the instructions in order, does not."""
+    from collections import deque
+    from exprval import NotPure, evaluate
+    from facts import access_path
+    from flow import atom
+    f = db.func("orc_compiler_rewrite_vars", "orccompiler")
+    rep.saw(f)
+    TEMP = db.enum("ORC_VAR_TYPE_TEMP")
+    dups = [c for c in f.calls("orc_compiler_dup_temporary")]
+    if not dups:
+        raise AnalysisBroken("orc_compiler_rewrite_vars no longer calls orc_compiler_dup_temporary")
+    n = 0
+    for b, blk in f.blocks.items():
+        if blk.cond is None:
+            continue
+        cn, pol = atom(blk.cond, True)
+        if cn is None or not (access_path(cn) or "").endswith(".used") and not (access_path(cn) or "").endswith("->used"):
+            continue
+        # the edge on which `used` is TRUE (an earlier definition exists)
+        starts = [s_ for i_, s_ in enumerate(blk.succs) if s_ is not None and f.edge_kind(b, i_) in (True, False) and atom(blk.cond, f.edge_kind(b, i_))[1] is True]
+        if not starts:
+            continue
+        # only the test whose else-branch holds the duplication (the destination loop)
+        ifs = [x for x in f.walk() if x.k == "IfStmt" and x.c and x.c[0] is not None and any(y.id == blk.cond.id for y in x.c[0].walk())]
+        if not ifs or not any(len(i_.c) > 2 and i_.c[2] is not None and any(d.id == y.id for d in dups for y in i_.c[2].walk()) or
+                              (i_.c[1] is not None and any(d.id == y.id for d in dups for y in i_.c[1].walk())) for i_ in ifs):
+            continue
+        reach = f.reachable_blocks(starts[0])
+        # where the two branches join again: the first block that post-dominates ... approximated by the assignment to last_use
+        joins = [x for x in f.walk() if x.k == "BinaryOperator" and x.op == "=" and (access_path(x.c[0]) or "").endswith("last_use") and f.pos(x) is not None
+                 and f.pos(x)[0] in reach and x.line > blk.cond.line]
+        if not joins:
+            continue
+        target = min(joins, key=lambda x: x.line)
+        tp = f.pos(target)
+        n += 1
+        env = {"compiler->vars[].vartype": TEMP}
+        seen = set()
+        dq = deque([starts[0]])
+        bypass = False
+        while dq and not bypass:
+            bb = dq.popleft()
+            if bb in seen:
+                continue
+            seen.add(bb)
+            k = f.blocks[bb]
+            els = k.el[:tp[1]] if bb == tp[0] else k.el
+            if any(e.k == "CallExpr" and e.name == "orc_compiler_dup_temporary" for e in els):
+                continue
+            if bb == tp[0]:
+                bypass = True
+                break
+            val = None
+            if k.cond is not None:
+                try:
+                    val = bool(evaluate(k.cond, env))
+                except (NotPure, ValueError, ZeroDivisionError):
+                    val = None
+            for i_, s_ in enumerate(k.succs):
+                if s_ is None:
+                    continue
+                ek = f.edge_kind(bb, i_)
+                if val is not None and ek in (True, False) and ek != val:
+                    continue
+                dq.append(s_)
+        rep.check(not bypass, rule, where(f), "redefinition@%s" % blk.cond.line,
+                  "a temporary that is defined again always gets a fresh duplicate (orc_compiler_dup_temporary)",
+                  "orc_compiler_rewrite_vars can let a second definition of a temporary through without a fresh duplicate (a path from the `used` test at "
+                  "line %s to line %s avoids orc_compiler_dup_temporary): a value loaded once before the loop (loadpX) is then updated inside it, and the "
+                  "generated C / backup code carries it from one element to the next where emulation does not" % (blk.cond.line, target.line), line=blk.cond.line)
+    if n < 1:
+        raise AnalysisBroken("the re-definition branch of orc_compiler_rewrite_vars was not found")
+    return n
